@@ -3,6 +3,7 @@ package engine
 import (
 	"fmt"
 	"go/token"
+	"regexp"
 	"sort"
 	"strings"
 
@@ -228,7 +229,23 @@ func (a *Automaton) Run() *Result {
 			}
 			v, _ := peelNot(ifi.Cond)
 			bo, ok := v.(*ssa.BinOp)
-			if !ok || (bo.Op != token.EQL && bo.Op != token.NEQ) {
+			if ok && bo.Op != token.EQL && bo.Op != token.NEQ {
+				// the same relational test of an unmodified request/parameter
+				// field evaluated twice (`len(a.Entries) > 0` … `n := len(a.Entries);
+				// n > 0`) is one fact
+				dx, dy := a.P.D(bo.X), a.P.D(bo.Y)
+				if stableParamDesc(dx) && (stableParamDesc(dy) || constLike(dy)) && !writtenInFn(a.P, fn, dx) && !writtenInFn(a.P, fn, dy) {
+					key := "rel:" + dx + " " + bo.Op.String() + " " + dy
+					if f, ok := first[key]; ok {
+						canonOf[v] = f
+					} else {
+						first[key] = v
+						canonOf[v] = v
+					}
+				}
+				continue
+			}
+			if !ok {
 				continue
 			}
 			kx, ky := opKey(bo.X), opKey(bo.Y)
@@ -799,4 +816,31 @@ func PredCond(name string, f func(c Cond) (bool, int)) Track {
 // Event tracks the execution of matching instructions.
 func Event(name string, f func(in ssa.Instruction) bool, kills ...string) Track {
 	return Track{Name: name, Ev: f, Kills: kills}
+}
+
+var stableParamRe = regexp.MustCompile(`^(len\()?p[0-9]+(\.[A-Za-z_][A-Za-z0-9_]*)+\)?$`)
+
+// stableParamDesc: a field path of a parameter, or its length.
+func stableParamDesc(d string) bool { return stableParamRe.MatchString(d) }
+
+// writtenInFn reports whether fn (or a literal nested in it) stores into the
+// field path d is about.
+func writtenInFn(p *Program, fn *ssa.Function, d string) bool {
+	d = strings.TrimSuffix(strings.TrimPrefix(d, "len("), ")")
+	if constLike(d) {
+		return false
+	}
+	for _, f := range allFuncsUnder(fn) {
+		for _, b := range f.Blocks {
+			for _, in := range b.Instrs {
+				if st, ok := in.(*ssa.Store); ok {
+					ad := p.D(st.Addr)
+					if ad == d || strings.HasPrefix(d, ad+".") || strings.HasPrefix(ad, d+".") || strings.HasPrefix(ad, d+"[") {
+						return true
+					}
+				}
+			}
+		}
+	}
+	return false
 }
